@@ -34,7 +34,8 @@ COMMENTS = ['#', '#', '%', '//']
 NOISE_KINDS = ['blank', 'ws', 'comment', 'comment_ws', 'short1', 'short2', 'wrongcols']
 
 NOISE = st.lists(st.tuples(st.integers(0, 40), st.sampled_from(NOISE_KINDS)), max_size=6)
-DECOR = st.lists(st.tuples(st.booleans(), st.sampled_from(['', '', ' ', '  ', '\t']), st.sampled_from(['', '', ' '])), min_size=12, max_size=12)
+DECOR = st.lists(st.tuples(st.booleans(), st.sampled_from(['', '', ' ', '  ', '\t']), st.sampled_from(['', '', ' ']),
+                           st.sampled_from(['', '', '', 'zero', 'plus'])), min_size=12, max_size=12)
 INTSETS = st.lists(st.integers(-10 ** 6, 10 ** 9) | st.integers(-20, 20), max_size=40, unique=True)
 
 
@@ -106,10 +107,25 @@ def build(case, d, accepted):
     noisy = []
     tags = []
     trailing = 0
+    spelled = 0
     for i, r in enumerate(rows):
-        tc, lead, trail = case['decor'][i % len(case['decor'])]
+        dec = case['decor'][i % len(case['decor'])]
+        tc, lead, trail = dec[0], dec[1], dec[2]
+        spell = dec[3] if len(dec) > 3 else ''
         if delim == '\t':
             lead = lead.replace('\t', ' ')
+        r = list(r)
+        if spell:
+            # the same integer written differently ('07', '+7', '-03'): equal as a number, so it must be
+            # read, and ranked with keys=True, exactly like its canonical spelling
+            for col in ((2, 3) if fmt == 'snap' else (3,)):
+                if col < len(r):
+                    n = int(r[col])
+                    if spell == 'zero':
+                        r[col] = ('-0%d' % -n) if n < 0 else ('0%d' % n)
+                    elif n >= 0:
+                        r[col] = '+%d' % n
+            spelled += 1
         line = lead + dl.join(r) + trail
         if tc:
             line += comment + ' trailing' + dl + '9' + dl + '9' + dl + '9'
@@ -127,7 +143,7 @@ def build(case, d, accepted):
         noisy.insert(min(pos, len(noisy)), ln)
         tags.insert(min(pos, len(tags)), kind)
         kinds.add(kind)
-    return noisy, clean, rows, {'trailing': trailing, 'kinds': kinds, 'tags': tags}
+    return noisy, clean, rows, {'trailing': trailing, 'kinds': kinds, 'tags': tags, 'spelled': spelled}
 
 
 def run_case(case, rec):
@@ -163,6 +179,8 @@ def run_case(case, rec):
     rec.classify('delimiter:%r' % (delim,))
     for k in meta['kinds']:
         rec.classify('noise:' + k)
+    if meta['spelled']:
+        rec.classify('timestamps with an alternative spelling')
     # ---- noise
     okc, C = safe(parse, list(clean), **kw)
     if not rec.check('C18.clean.call', okc, lambda: '%s parsing the valid rows %r raised %r' % (ctx, clean, C)):
@@ -218,17 +236,29 @@ def run_case(case, rec):
         # own are left out: the statement does not say whether they take part in the ranking)
         keyfile = [ln for ln, tg in zip(noisy, meta['tags']) if tg in ('row', 'blank', 'ws', 'comment', 'comment_ws')]
         with iocommon.Scratch() as sc:
-            for label, content in (('plain', clean), ('noisy', keyfile)):
+            rows_only = [ln for ln, tg in zip(noisy, meta['tags']) if tg == 'row']
+            for label, content in (('plain', clean), ('decorated', rows_only), ('noisy', keyfile)):
                 p = sc.path('k_%s.txt' % label)
                 with open(p, 'wb') as f:
                     f.write(''.join(content).encode('utf-8'))
                 okk, K = safe(lambda: reader(p, comments=comment, directed=d.directed, delimiter=delim, nodetype=nt,
                                              timestamptype=int, keys=True))
-                sub = 'C18.keys' if label == 'plain' else 'C18.keys.noise'
+                sub = 'C18.keys' if label == 'plain' else ('C18.keys.noise' if label == 'noisy' else 'C18.keys.decorated')
                 if rec.check(sub, okk and okr, lambda: '%s read(keys=True) of %r raised %r / ranked rows %r' % (ctx, content, K, Rk)):
                     ok, (o1, o2) = safe(lambda: (observe(K), observe(Rk)))
                     rec.check(sub, ok and o1 == o2, lambda: '%s keys=True on %r differs from the ranked rows %r in %r' % (
                         ctx, content, ranked, diff(o1, o2) if ok else o1))
+            # an unconvertible timestamp must raise TypeError with keys=True as well (the ranking pass
+            # converts the timestamps before the parser does)
+            pos, what = case['bad']
+            badrow = list(rows[pos % len(rows)])
+            badrow[3 if fmt == 'inter' else 2] = '1.5x'
+            p = sc.path('k_bad.txt')
+            with open(p, 'wb') as f:
+                f.write((''.join(clean) + (' ' if delim is None else delim).join(badrow) + '\n').encode('utf-8'))
+            okk, K = safe(lambda: reader(p, comments=comment, directed=d.directed, delimiter=delim, nodetype=nt, timestamptype=int, keys=True))
+            rec.check('C18.keys.type_error', (not okk) and type(K) is TypeError,
+                      lambda: '%s read(keys=True) of a file with the unconvertible timestamp row %r: got %r' % (ctx, badrow, K))
         if fmt == 'snap' and any(len(r) == 4 for r in rows):
             rec.classify('keys: 4-column rows')
     return len(rows) >= 2 and len(meta['kinds']) >= 2 and meta['trailing'] >= 1
